@@ -25,6 +25,7 @@ import OpenFGAVerif.Proofs.IterCacheTies
 import OpenFGAVerif.Proofs.SharedIterCancel
 import OpenFGAVerif.Gen.Iter
 import OpenFGAVerif.Gen.SharedCtx
+import OpenFGAVerif.Props.Release2
 
 namespace OpenFGAVerif.C09
 open OpenFGAVerif.Model.Iter OpenFGAVerif.Model.IterCache OpenFGAVerif.Proofs.IterCache
